@@ -270,6 +270,36 @@ pub fn tamper_cases(r: &mut Rng, b: &Built, reps: usize) -> Vec<Case> {
             let mut p = b.proof.clone(); p.public_inputs.push(F::from_canonical_u64(1 + r.below(1000))); add("publicinput-appendx".into(), '0', p, vd.clone());
             let mut p = b.proof.clone(); if p.public_inputs.pop().is_some() { add("publicinput-droplast".into(), '0', p, vd.clone()); }
         }
+        // surplus elements (the native verifier rejects every one by shape; the witness assignment must not accept
+        // them by truncation): one more FRI step in a query round, one more opening, openings regrouped between two
+        // vectors, caps with surplus entries, one more commit-phase cap, one more Merkle sibling, one more query round
+        {
+            let nq2 = b.proof.proof.opening_proof.query_round_proofs.len();
+            let q = r.below(nq2 as u64) as usize;
+            let mut p = b.proof.clone();
+            { let st = &mut p.proof.opening_proof.query_round_proofs[q].steps; if let Some(l) = st.last().cloned() { st.push(l); add(format!("surplus-step-q{q}"), '0', p, vd.clone()); } }
+            let mut p = b.proof.clone(); p.proof.openings.quotient_polys.push(FE::ZERO); add("surplus-opening-quotient".into(), '0', p, vd.clone());
+            let mut p = b.proof.clone(); p.proof.openings.plonk_zs_next.push(FE::ZERO); add("surplus-opening-zsnext".into(), '0', p, vd.clone());
+            let mut p = b.proof.clone(); p.proof.openings.constants.push(FE::ZERO); add("surplus-opening-constants0".into(), '0', p, vd.clone());
+            let mut p = b.proof.clone();
+            if let Some(x) = p.proof.openings.wires.pop() { p.proof.openings.plonk_zs.insert(0, x); add("regrouped-wires-to-zs".into(), '0', p, vd.clone()); }
+            let mut p = b.proof.clone();
+            if let Some(x) = p.proof.openings.constants.pop() { p.proof.openings.plonk_sigmas.insert(0, x); add("regrouped-constants-to-sigmas".into(), '0', p, vd.clone()); }
+            for which in 0..3 {
+                let mut p = b.proof.clone();
+                let cap = match which { 0 => &mut p.proof.wires_cap, 1 => &mut p.proof.plonk_zs_partial_products_cap, _ => &mut p.proof.quotient_polys_cap };
+                let dup = cap.0.clone(); cap.0.extend(dup);
+                add(format!("surplus-cap-entries-{}", ["wires", "zs", "quotient"][which]), '0', p, vd.clone());
+            }
+            let mut p = b.proof.clone();
+            { let cs = &mut p.proof.opening_proof.commit_phase_merkle_caps; if let Some(l) = cs.last().cloned() { cs.push(l); add("surplus-commit-cap".into(), '0', p, vd.clone()); } }
+            let mut p = b.proof.clone();
+            { let ep = &mut p.proof.opening_proof.query_round_proofs[q].initial_trees_proof.evals_proofs;
+              let o = r.below(ep.len() as u64) as usize; ep[o].0.push(F::ZERO); add(format!("surplus-leaf-element-q{q}-o{o}"), '0', p, vd.clone()); }
+            let mut p = b.proof.clone();
+            { let l = p.proof.opening_proof.query_round_proofs[q].clone(); p.proof.opening_proof.query_round_proofs.push(l); add("surplus-query-round".into(), '0', p, vd.clone()); }
+            let mut p = b.proof.clone(); p.proof.opening_proof.final_poly.coeffs.push(FE::ZERO); add("surplus-finalpoly-zero".into(), '0', p, vd.clone());
+        }
         // public input
         if !b.proof.public_inputs.is_empty() {
             let mut p = b.proof.clone();
